@@ -184,6 +184,11 @@ func (this *WalletData) reencrypt(passwords [][]byte, param *keypair.ScryptParam
 		return errors.New("not enough passwords for the accounts")
 	}
 	keys := make([]*keypair.ProtectedKey, len(this.Accounts))
+	encParam := param
+	if encParam == nil {
+		// default parameters
+		encParam = keypair.GetScryptParameters()
+	}
 	for i, v := range this.Accounts {
 		pri, err := keypair.DecryptWithCustomScrypt(&v.ProtectedKey, passwords[i], this.Scrypt)
 		if err == nil {
@@ -194,7 +199,7 @@ func (this *WalletData) reencrypt(passwords [][]byte, param *keypair.ScryptParam
 		if err != nil {
 			return fmt.Errorf("re-encrypt account %d failed: %s", i, err)
 		}
-		prot, err := keypair.EncryptWithCustomScrypt(pri, v.Address, passwords[i], param)
+		prot, err := keypair.EncryptWithCustomScrypt(pri, v.Address, passwords[i], encParam)
 		if err != nil {
 			return fmt.Errorf("re-encrypt account %d failed: %s", i, err)
 		}
